@@ -206,6 +206,10 @@ type Op struct {
 	RespHeader    http.Header // further response headers the handler sets before it writes (Content-Encoding: identity, Vary, ETag)
 	CtxCancelled  bool        // the request's context is already cancelled (a timeout middleware in front)
 	Nested        bool        // EMiddleware / EMiddleErr: the middleware is applied twice (router and route)
+	// SharedHandler: one handler value, built once, serves the requests of several tasks (as in
+	// a real server); its inner handler finds the op by the request URI and plays op.handle.
+	SharedHandler http.Handler
+	curY          *sim.Point
 
 	// observations
 	Out        []byte
@@ -390,6 +394,15 @@ func (op *Op) Exec(y *sim.Point, m *minify.M) {
 	case EMiddleware, EMiddleErr:
 		op.RW = sim.NewSimResponseWriter(op.W)
 		req := op.request()
+		if op.SharedHandler != nil {
+			op.curY = y
+			op.SharedHandler.ServeHTTP(op.RW, req)
+			op.W.Seal()
+			op.Closed = true
+			op.OutAtClose, op.AtCloseN, _ = op.W.Snapshot()
+			op.Out = op.OutAtClose
+			return
+		}
 		next := http.HandlerFunc(func(w http.ResponseWriter, r *http.Request) { op.handle(y, w) })
 		var h http.Handler
 		errf := func(w http.ResponseWriter, r *http.Request, err error) {
@@ -412,6 +425,24 @@ func (op *Op) Exec(y *sim.Point, m *minify.M) {
 		op.OutAtClose, op.AtCloseN, _ = op.W.Snapshot()
 		op.Out = op.OutAtClose
 	}
+}
+
+// SharedMiddleware builds one MiddlewareWithError handler for all the given ops.
+func SharedMiddleware(m *minify.M, ops []*Op) http.Handler {
+	byURI := map[string]*Op{}
+	for _, op := range ops {
+		byURI[op.RequestURI] = op
+	}
+	next := http.HandlerFunc(func(w http.ResponseWriter, r *http.Request) {
+		if op := byURI[r.RequestURI]; op != nil {
+			op.handle(op.curY, w)
+		}
+	})
+	return m.MiddlewareWithError(next, func(w http.ResponseWriter, r *http.Request, err error) {
+		if op := byURI[r.RequestURI]; op != nil {
+			op.MidErr, op.MidErrSet = err, true
+		}
+	})
 }
 
 func (op *Op) request() *http.Request {
